@@ -2375,6 +2375,26 @@ class FnTranslator:
                     return "do %s <- list_upd %s %s %s;\nlet %s := %s in\n%s" % (t, bterm, i_, v, var(root), term, k("tt"))
                 return self.tr(lhs[2], env, lambda i_: self.tr(rhs, env, lambda v: after_iv(i_, v), lt), T("usize"))
 
+            if lhs[0] == "field" and lhs[1][0] == "index" and lhs[1][2][0] != "range":
+                # a[i].f = v: read the element (None when i is out of bounds), update its field, write it back
+                base, fld = lhs[1][1], lhs[2]
+                et = self.ty_of(lhs[1], env)
+                if et is None:
+                    raise Unsupported("field assignment on an element of unknown type")
+
+                def after_ifv(i_, v):
+                    bterm = self.pure(base, env)
+                    if bterm is None:
+                        raise Unsupported("element assignment through a computed place")
+                    tmp = "elem%s" % self.c.fresh().strip("_")
+                    env2 = dict(env); env2[tmp] = et
+                    _r, eterm = self.place_update(("field", ("path", [tmp]), fld), v, env2)
+                    t = self.c.fresh()
+                    root, term = self.place_update(base, t, env)
+                    return "do %s <- nth_error %s %s;\ndo %s <- list_upd %s %s %s;\nlet %s := %s in\n%s" \
+                        % (var(tmp), bterm, i_, t, bterm, i_, eterm, var(root), term, k("tt"))
+                return self.tr(lhs[1][2], env, lambda i_: self.tr(rhs, env, lambda v: after_ifv(i_, v), lt), T("usize"))
+
             def after(v):
                 root, term = self.place_update(lhs, v, env)
                 return "let %s := %s in\n%s" % (var(root), term, k("tt"))
@@ -3536,6 +3556,13 @@ MODULES = {
                         (None, None, "find_rigid_matches_rev"), (None, None, "flatten_concat"), (None, None, "decompose_concat"), (None, None, "flatten_inter"), (None, None, "flatten_union")],
         # concat_inclusion itself translates too (re-slicing, &&-chains of in-out calls); it is left out until its link
         # (which needs the tiling / ordering invariants of InclusionProofs.v on the generated side) is written
+    },
+    "BasePartGen": {
+        "files": ["partitions.rs"],
+        "types": ["BlockHeader", "BasePartition"],
+        "consts": [],
+        "functions": [("BasePartition", None, f) for f in ("new", "num_blocks", "index", "size", "block_size", "smaller_block",
+                                                            "pick_element", "slice", "add_block", "split_block")],
     },
     "PartitionGen": {
         "files": ["character_sets.rs", "smt_strings.rs", "errors.rs"],
